@@ -1849,6 +1849,43 @@ EGLPNUM_TYPENAME_QSLIB_INTERFACE int EGLPNUM_TYPENAME_QSload_basis_array (
 		goto CLEANUP;
 	}
 
+	/* reject malformed arrays here rather than crash in the next solve */
+	{
+		int nbas = 0;
+
+		for (i = 0; i < qslp->nstruct; i++)
+		{
+			if (cstat[i] == QS_COL_BSTAT_BASIC)
+				nbas++;
+			else if (cstat[i] != QS_COL_BSTAT_LOWER && cstat[i] != QS_COL_BSTAT_UPPER &&
+							 cstat[i] != QS_COL_BSTAT_FREE)
+			{
+				QSlog("illegal column status in EGLPNUM_TYPENAME_QSload_basis_array");
+				rval = 1;
+				goto CLEANUP;
+			}
+		}
+		for (i = 0; i < qslp->nrows; i++)
+		{
+			if (rstat[i] == QS_ROW_BSTAT_BASIC)
+				nbas++;
+			else if (rstat[i] != QS_ROW_BSTAT_LOWER &&
+							 !(rstat[i] == QS_ROW_BSTAT_UPPER && qslp->sense[i] == 'R'))
+			{
+				QSlog("illegal row status in EGLPNUM_TYPENAME_QSload_basis_array");
+				rval = 1;
+				goto CLEANUP;
+			}
+		}
+		if (nbas != qslp->nrows)
+		{
+			QSlog("basis given to EGLPNUM_TYPENAME_QSload_basis_array has %d basic entries for %d rows",
+									nbas, qslp->nrows);
+			rval = 1;
+			goto CLEANUP;
+		}
+	}
+
 	if (p->basis == 0)
 	{
 		ILL_SAFE_MALLOC (p->basis, 1, EGLPNUM_TYPENAME_ILLlp_basis);
